@@ -33,6 +33,7 @@ type Env struct {
 	callee      bool
 	resultNames []string
 	lenient     bool
+	cur         *State // inside old(...) of a postcondition: the state at the return (locals keep their final value)
 }
 
 func (e *Env) with(st *State) *Env {
@@ -127,6 +128,9 @@ func (x *Exec) eval(e *CE, env *Env) TV {
 		n := *env
 		n.st = env.old
 		n.locals = false
+		if n.cur == nil {
+			n.cur = env.st
+		}
 		return x.eval(e.Args[0], &n)
 	case "pre":
 		if env.pre == nil {
@@ -251,6 +255,18 @@ func (x *Exec) evalIdent(name string, env *Env) TV {
 	}
 	if sf, ok := x.w.cs.specs[name]; ok && len(sf.Params) == 0 {
 		return x.applySpec(sf, nil, env)
+	}
+	// a postcondition may mention a local of the function: its value at the return being checked
+	if !env.locals && !env.callee && env.fn != nil && env.pos.IsValid() {
+		le := env
+		if env.cur != nil {
+			n := *env
+			n.st = env.cur
+			le = &n
+		}
+		if tv, ok := x.localByName(name, le); ok {
+			return tv
+		}
 	}
 	panic(unsupported("unknown identifier %q in contract", name))
 }
@@ -449,6 +465,11 @@ func (x *Exec) fieldPtr(p PtrV, structT types.Type, path []int) PtrV {
 
 func (x *Exec) evalIndex(base, idx TV, env *Env) TV {
 	c := x.c
+	if sc, ok := base.V.(Sc); ok {
+		if mt, ok := base.T.Underlying().(*types.Map); ok {
+			return TV{x.mapGet(env.st, sc.T, mt, idx.V), mt.Elem()}
+		}
+	}
 	i := x.scalar(idx.V)
 	switch s := base.V.(type) {
 	case SliceV:
@@ -740,6 +761,15 @@ func (x *Exec) evalCall(e *CE, env *Env) TV {
 	f64T := types.Typ[types.Float64]
 	arg := func(i int) TV { return x.eval(e.Args[i], env) }
 	switch e.Name {
+	case "has": // has(m, k): the map m has an entry for key k
+		m := arg(0)
+		mt, ok := m.T.Underlying().(*types.Map)
+		if !ok {
+			panic(unsupported("has() of a non-map"))
+		}
+		kt := x.mapKeyTerm(env.st, mt, arg(1).V)
+		_, ph := x.mapPresent(env.st, mt)
+		return TV{Sc{c.And(c.Neq(x.scalar(m.V), c.Int(0)), c.Select(c.Select(ph, x.scalar(m.V)), kt))}, boolT}
 	case "len":
 		a := arg(0)
 		switch s := a.V.(type) {
